@@ -381,8 +381,9 @@ impl Gen<'_> {
             let mut explicit = false;
             if self.r.chance(30) {
                 // explicit names are used verbatim: mixed case, underscores, multi-byte names whose first differing characters share
-                // a lead byte (пуск / путь / пуля, k佐 / k佗), names around the built-in `help`, one long multi-byte name
-                let base = self.r.pick(&["x", "go-now", "пуск", "值", "a_b", "Q", "гет", "ge", "get", "путь", "пуля", "k佐", "k佗", "heap", "heat", "he", "helm", "h", "длинная-команда", "maxLevel"]);
+                // a lead byte (пуск / путь / пуля, k佐 / k佗), names around the built-in `help`, one long multi-byte name, names that begin with
+                // the same character or syllable twice (`eeprom`, `gogo`: the typed word occurs in them more than once)
+                let base = self.r.pick(&["x", "go-now", "пуск", "值", "a_b", "Q", "гет", "ge", "get", "путь", "пуля", "k佐", "k佗", "heap", "heat", "he", "helm", "h", "длинная-команда", "maxLevel", "eeprom", "gogo", "ssid-set", "ssid-show", "aab", "жжук", "佐佐木"]);
                 let cand = format!("{}{}", base, if self.r.chance(60) { self.r.below(10).to_string() } else { String::new() });
                 if !used_name.contains(&cand) && cand != "help" && !(depth == 0 && taken_names.contains(&cand)) {
                     name = cand;
